@@ -1049,6 +1049,7 @@ package bpmn
 //@   prop C10
 //@   ensures [action-unchanged] result == action
 //@   ensures [at-most-one-cancel-request] count(Call, code("Activity.Cancel")) <= old(count(Call, code("Activity.Cancel"))) + 1
+//@   ensures [cancel-is-requested-once-per-harness] old(oncedone(mu(node.cancellation))) ==> count(Call, code("Activity.Cancel")) == old(count(Call, code("Activity.Cancel")))
 //@   ensures [a-cancel-request-is-awaited] count(Call, code("Activity.Cancel")) == old(count(Call, code("Activity.Cancel"))) + 1 ==>
 //@             evlen == old(evlen) + 2 && isCall(ev(old(evlen))) && isRecv(ev(old(evlen) + 1))
 
